@@ -238,6 +238,7 @@ pub fn def() -> PropDef {
         needs_pairing: false,
         subs: vec![
             Box::new(crate::engine::EnumSub { name: "long-history", rule: super::longhist::RULE, run: run_long_history, replay: super::longhist::replay, exhaustive: false }),
+            Box::new(crate::engine::EnumSub { name: "two-input-bursts", rule: super::longhist::BURST_RULE, run: run_two_input_bursts, replay: super::longhist::replay_burst, exhaustive: false }),
             Box::new(Sub { name: "g1-sswu", rule: "G1 osswu_map vs RFC map_to_curve_simple_swu (Z = 11)", quick: 18_000, thorough: 100_000, strategy: || boxed(swu_case_strategy(0)), check: check_swu }),
             Box::new(Sub { name: "g2-sswu", rule: "G2 osswu_map vs RFC map_to_curve_simple_swu (Z = -(2+I)), 16 branch cells measured", quick: 9_000, thorough: 50_000, strategy: || boxed(swu_case_strategy(1)), check: check_swu }),
             Box::new(Sub { name: "related-sequences", rule: "2..5 calls back to back on t, -t, another t', the other group: each compared with the model", quick: 1_500, thorough: 40_000, strategy: || boxed(swu_seq_strategy()), check: check_swu_seq }),
